@@ -103,7 +103,7 @@ TrErr    == /\ IsEv("err_sent") /\ OwnFd /\ S_SendErr(Sess, Ok)
             /\ Consume /\ UNCHANGED <<fdof, mod>> /\ ClientsUnchanged
 TrRtErr  == /\ IsEv("err_sent") /\ OwnFd /\ Ev.hex = ProgOf(Sess).err /\ S_SendRtErr(Sess, Ok)
             /\ Consume /\ UNCHANGED <<fdof, mod>> /\ ClientsUnchanged
-TrExit   == /\ IsEv("exit_sent") /\ OwnFd /\ Ev.code = ProgOf(Sess).exit /\ S_SendExit(Sess, Ok)
+TrExit   == /\ IsEv("exit_sent") /\ OwnFd /\ Ev.code = ExitCode(Sess) /\ S_SendExit(Sess, Ok)
             /\ Consume /\ UNCHANGED <<fdof, mod>> /\ ClientsUnchanged
 TrPong   == /\ IsEv("simple_sent") /\ OwnFd /\ Ev.type = T_PONG /\ S_Pong(Sess, Ok)
             /\ Consume /\ UNCHANGED <<fdof, mod>> /\ ClientsUnchanged
